@@ -101,7 +101,10 @@ type Gate struct {
 	FailWhen bool     `json:"fail_when"`
 	MustPass bool     `json:"must_pass"`
 	Deps     []string `json:"deps,omitempty"`
-	Pos      token.Pos `json:"-"`
+	// Once: no accept outcome is reachable even when the check fails only at ONE evaluation and
+	// later evaluations (further loop iterations) may pass: a single failure is fatal.
+	Once bool      `json:"once,omitempty"`
+	Pos  token.Pos `json:"-"`
 	val      ssa.Value
 }
 
@@ -114,6 +117,7 @@ type FnAnalysis struct {
 	resErr bool
 	Deps   *DepAnalysis
 	depth  int
+	storedFields map[string]bool
 }
 
 func Analyze(fn *ssa.Function, spec AcceptSpec) *FnAnalysis {
@@ -240,11 +244,19 @@ type evalCtx struct {
 	env   env
 	blk   *ssa.BasicBlock
 	guard map[ssa.Value]bool
+	// ctx: truth of loop-invariant flags (fields of a parameter never stored in this function)
+	// known where the check under test sits; a later re-evaluation of the same flag has the same value
+	ctx map[string]bool
 }
 
 func (c *evalCtx) fact(k fkey) tri {
 	if fs := c.a.mustIn[c.blk]; fs != nil {
 		if v, ok := fs[k]; ok {
+			return triOf(v)
+		}
+	}
+	if c.ctx != nil && !k.isnil && c.a.invariantFlag(k.v) {
+		if v, ok := c.ctx[c.a.D.Val(k.v)]; ok {
 			return triOf(v)
 		}
 	}
@@ -388,26 +400,93 @@ func (c *evalCtx) acceptReturn(ret *ssa.Return) bool {
 // reach explores the CFG from instruction index `from` of block start under
 // the assumption and reports whether an accept outcome is reachable.
 func (a *FnAnalysis) reach(as *assume, start *ssa.BasicBlock, from int) bool {
+	return a.reachMode(as, start, from, false)
+}
+
+// reachMode: with once, the assumption holds for the evaluation under test
+// only; when the walk executes the check again it is unknown from then on.
+// invariantFlag: v is a load of a bool field reached from a parameter through
+// fields only, and no instruction of the function stores to a field of that name.
+func (a *FnAnalysis) invariantFlag(v ssa.Value) bool {
+	u, ok := v.(*ssa.UnOp)
+	if !ok || u.Op != token.MUL || !isBool(v.Type()) {
+		return false
+	}
+	fa, ok := u.X.(*ssa.FieldAddr)
+	if !ok {
+		return false
+	}
+	name := fa.X.Type().Underlying().(*types.Pointer).Elem().Underlying().(*types.Struct).Field(fa.Field).Name()
+	x := fa.X
+	for {
+		switch y := x.(type) {
+		case *ssa.Parameter:
+			goto rooted
+		case *ssa.FieldAddr:
+			x = y.X
+		case *ssa.UnOp:
+			x = y.X
+		default:
+			return false
+		}
+	}
+rooted:
+	if a.storedFields == nil {
+		a.storedFields = map[string]bool{}
+		for _, b := range a.Fn.Blocks {
+			for _, in := range b.Instrs {
+				if st, ok := in.(*ssa.Store); ok {
+					if f, ok := st.Addr.(*ssa.FieldAddr); ok {
+						a.storedFields[f.X.Type().Underlying().(*types.Pointer).Elem().Underlying().(*types.Struct).Field(f.Field).Name()] = true
+					}
+				}
+			}
+		}
+	}
+	return !a.storedFields[name]
+}
+
+func (a *FnAnalysis) reachMode(as *assume, start *ssa.BasicBlock, from int, once bool) bool {
+	// loop-invariant flags known at the check keep their value when re-evaluated
+	ctx := map[string]bool{}
+	for k, v := range a.mustIn[start] {
+		if !k.isnil && a.invariantFlag(k.v) {
+			ctx[a.D.Val(k.v)] = v
+		}
+	}
 	type st struct {
-		b   *ssa.BasicBlock
-		e   env
-		idx int
+		b       *ssa.BasicBlock
+		e       env
+		idx     int
+		dropped bool
 	}
 	seen := map[string]bool{}
-	work := []st{{start, env{}, from}}
+	work := []st{{start, env{}, from, false}}
 	for len(work) > 0 {
 		s := work[len(work)-1]
 		work = work[:len(work)-1]
-		k := fmt.Sprintf("%d|%d|%s", s.b.Index, s.idx, s.e.key())
+		k := fmt.Sprintf("%d|%d|%v|%s", s.b.Index, s.idx, s.dropped, s.e.key())
 		if seen[k] {
 			continue
 		}
 		seen[k] = true
-		c := &evalCtx{a: a, as: as, env: s.e, blk: s.b, guard: map[ssa.Value]bool{}}
+		cas := as
+		if s.dropped {
+			cas = nil
+		}
+		c := &evalCtx{a: a, as: cas, env: s.e, blk: s.b, guard: map[ssa.Value]bool{}, ctx: ctx}
+		dropped := s.dropped
 		instrs := s.b.Instrs
 		stop := false
 		for i := s.idx; i < len(instrs) && !stop; i++ {
 			in := instrs[i]
+			if once && !dropped && as != nil {
+				if v, ok := in.(ssa.Value); ok && v == as.r {
+					// the check is evaluated again: this later evaluation is not assumed to fail
+					dropped = true
+					c = &evalCtx{a: a, as: nil, env: s.e, blk: s.b, guard: map[ssa.Value]bool{}, ctx: ctx}
+				}
+			}
 			if a.Spec.Block != nil && a.Spec.Block(in) {
 				stop = true
 				break
@@ -426,14 +505,14 @@ func (a *FnAnalysis) reach(as *assume, start *ssa.BasicBlock, from int) bool {
 			case *ssa.If:
 				tv := c.evalBool(t.Cond)
 				if tv != tF {
-					work = append(work, st{s.b.Succs[0], a.edgeEnv(c, s.b, s.b.Succs[0]), 0})
+					work = append(work, st{s.b.Succs[0], a.edgeEnv(c, s.b, s.b.Succs[0]), 0, dropped})
 				}
 				if tv != tT {
-					work = append(work, st{s.b.Succs[1], a.edgeEnv(c, s.b, s.b.Succs[1]), 0})
+					work = append(work, st{s.b.Succs[1], a.edgeEnv(c, s.b, s.b.Succs[1]), 0, dropped})
 				}
 				stop = true
 			case *ssa.Jump:
-				work = append(work, st{s.b.Succs[0], a.edgeEnv(c, s.b, s.b.Succs[0]), 0})
+				work = append(work, st{s.b.Succs[0], a.edgeEnv(c, s.b, s.b.Succs[0]), 0, dropped})
 				stop = true
 			}
 		}
@@ -581,11 +660,14 @@ func (a *FnAnalysis) Gates() []Gate {
 				pos = ex.Tuple.Pos()
 			}
 			g := &Gate{Cond: cond.Desc, FailWhen: failVal, MustPass: must, Pos: pos, val: v}
+			// fail-once: the failing polarity in terms of the assumed value of v is !okT ? true : false
+			g.Once = !a.reachMode(&assume{v, !okT}, b, i+1, true)
 			if a.Deps != nil {
 				g.Deps = a.Deps.Of(v)
 			}
 			if old, ok := byKey[k]; ok {
 				old.MustPass = old.MustPass || must
+				old.Once = old.Once || g.Once
 				old.Deps = unionStr(old.Deps, g.Deps)
 				continue
 			}
@@ -624,9 +706,10 @@ func (a *FnAnalysis) Gates() []Gate {
 				key := fmt.Sprintf("%s|%v", cond, h.FailWhen)
 				if old, ok := byKey[key]; ok {
 					old.MustPass = old.MustPass || (g.MustPass && h.MustPass)
+					old.Once = old.Once || (g.Once && h.Once)
 					continue
 				}
-				byKey[key] = &Gate{Cond: cond, FailWhen: h.FailWhen, MustPass: g.MustPass && h.MustPass, Pos: g.Pos, Deps: g.Deps}
+				byKey[key] = &Gate{Cond: cond, FailWhen: h.FailWhen, MustPass: g.MustPass && h.MustPass, Once: g.Once && h.Once, Pos: g.Pos, Deps: g.Deps}
 			}
 		}
 	}
@@ -915,5 +998,101 @@ func (a *FnAnalysis) FactTriplesAt(b *ssa.BasicBlock) []Fact {
 	for k, v := range a.mustIn[b] {
 		out = append(out, Fact{k.v, k.isnil, v})
 	}
+	return out
+}
+
+// FullLoops lists (by the canonical condition of their header) the loops of
+// the function that examine every element: the only ways out are the loop
+// condition itself, a return or a panic — no `break` that lets the function
+// carry on without having looked at the remaining elements.
+func (a *FnAnalysis) FullLoops() []string {
+	fn := a.Fn
+	set := map[string]bool{}
+	// natural loops, all back edges of one header merged
+	latches := map[*ssa.BasicBlock][]*ssa.BasicBlock{}
+	for _, b := range fn.Blocks {
+		for _, h := range b.Succs {
+			if h.Dominates(b) {
+				latches[h] = append(latches[h], b)
+			}
+		}
+	}
+	for h, ls := range latches {
+		inLoop := map[*ssa.BasicBlock]bool{h: true}
+		stack := append([]*ssa.BasicBlock(nil), ls...)
+		for len(stack) > 0 {
+			x := stack[len(stack)-1]
+			stack = stack[:len(stack)-1]
+			if inLoop[x] {
+				continue
+			}
+			inLoop[x] = true
+			for _, p := range x.Preds {
+				if h.Dominates(p) {
+					stack = append(stack, p)
+				}
+			}
+		}
+		ifi, ok := h.Instrs[len(h.Instrs)-1].(*ssa.If)
+		if !ok {
+			continue
+		}
+		exits := 0
+		for x := range inLoop {
+			if x == h {
+				continue
+			}
+			for _, y := range x.Succs {
+				if inLoop[y] {
+					continue
+				}
+				switch y.Instrs[len(y.Instrs)-1].(type) {
+				case *ssa.Return, *ssa.Panic:
+					if len(y.Instrs) <= 12 {
+						continue // error return / panic out of the loop
+					}
+				}
+				exits++
+			}
+		}
+		if exits == 0 {
+			set[a.D.CanonCond(ifi.Cond).Desc] = true
+		} else {
+			// a loop that already has early exits: their number is recorded
+			set[fmt.Sprintf("%s ~exits=%d", a.D.CanonCond(ifi.Cond).Desc, exits)] = true
+		}
+	}
+	// loops inside small unexported helpers count for their callers
+	if a.depth < 2 {
+		for _, b := range fn.Blocks {
+			for _, in := range b.Instrs {
+				ci, ok := in.(ssa.CallInstruction)
+				if !ok {
+					continue
+				}
+				f := ci.Common().StaticCallee()
+				if ci.Common().IsInvoke() || !Inlinable(f) || f == fn {
+					continue
+				}
+				inlineBusy[f] = true
+				ha := Analyze(f, AcceptSpec{})
+				ha.depth = a.depth + 1
+				hl := ha.FullLoops()
+				delete(inlineBusy, f)
+				var args []string
+				for _, arg := range ci.Common().Args {
+					args = append(args, a.D.Val(arg))
+				}
+				for _, s := range hl {
+					set[SubstParams(s, args)] = true
+				}
+			}
+		}
+	}
+	var out []string
+	for s := range set {
+		out = append(out, s)
+	}
+	sort.Strings(out)
 	return out
 }
